@@ -1,6 +1,7 @@
 import Noodles.Basic.Wire
 import Noodles.Csi.Driver
 import Noodles.Csi.DriverC04
+import Noodles.Fasta.DriverC11
 import Noodles.Bgzf.Driver
 import Noodles.Bgzf.DriverC02
 import Noodles.Bgzf.DriverC03
@@ -14,6 +15,7 @@ def dispatch (line : String) : String :=
   | "c01" :: rest => Bgzf.handleC01 rest
   | "c02" :: rest => Bgzf.RM.handleC02 rest
   | "c03" :: rest => MtModel.handleC03 rest
+  | "c11" :: rest => Fasta.handleC11 rest
   | _ => "bad-suite"
 
 end Noodles
